@@ -196,6 +196,14 @@ func checkC19(c *Ctx) {
 	// field elements are kept in Montgomery form: an integer enters the field only through the converting
 	// setter, so the generic inversion of an integer is preceded by the conversion
 	checkPrio3FieldTables(c, p, "C19.table")
+	// bit decomposition of a measurement: a value of exactly 2^bits does not fit and must be refused (it would be
+	// encoded as all zeros and pass the range proof); 2^bits - 1 fits - decided by constant propagation
+	for _, fp := range []string{"fp64", "fp128"} {
+		sb := p.Func("vdaf/prio3/arith/"+fp, "Vec", "SplitBits")
+		c.evalAcceptRule(p, "C19.encode", fp+": SplitBits(16) into 4 bits is refused", sb, map[string]lat{"v": latSliceLen(4), "n": latInt(16)}, nil, false)
+		c.evalAcceptRule(p, "C19.encode", fp+": SplitBits(15) into 4 bits is accepted", sb, map[string]lat{"v": latSliceLen(4), "n": latInt(15)}, nil, true)
+		c.evalAcceptRule(p, "C19.encode", fp+": SplitBits(1) into 0 bits is refused", sb, map[string]lat{"v": latSliceLen(0), "n": latInt(1)}, nil, false)
+	}
 	// the validity circuits hand the range check the number of gadget calls the proof system gave them (the
 	// proof has one wire value per call: a count derived differently, e.g. by a truncating division of the
 	// measurement length, leaves the tail of the measurement unchecked)
